@@ -23,6 +23,7 @@ type Step struct {
 	FilterC int                    `json:"filterc,omitempty"` // gate only events of this client's session
 	Cmid    string                 `json:"cmid,omitempty"`    // "next": gate only the client's next ClientMessageId
 	Forced  bool                   `json:"forced,omitempty"`
+	To      string                 `json:"to,omitempty"` // bind: role the number N is bound to
 }
 
 type Schedule struct {
@@ -415,6 +416,20 @@ func (r *Runner) Exec(st Step) error {
 		if n := r.resolve(st.N); n != 0 {
 			c.Resume(n)
 		}
+	case "pausefollowers":
+		l := c.Leader()
+		for _, nd := range c.nodes {
+			if nd.id != l && nd.live() {
+				c.Pause(nd.id)
+			}
+		}
+	case "resumeexcept":
+		keep := r.resolve(st.N)
+		for _, nd := range c.nodes {
+			if nd.id != keep {
+				c.Resume(nd.id)
+			}
+		}
 	case "resumeall":
 		for _, nd := range c.nodes {
 			c.Resume(nd.id)
@@ -513,6 +528,13 @@ func (r *Runner) Exec(st Step) error {
 	case "waitleader":
 		if _, err := c.WaitLeader(time.Duration(max(st.Ms, 30000))*time.Millisecond, 0); err != nil {
 			return err
+		}
+	case "bind":
+		// give the node that currently plays role To the number N for the rest of the schedule
+		if m, ok := st.N.(float64); ok {
+			if real := r.resolve(st.To); real != 0 {
+				r.bind[int(m)] = real
+			}
 		}
 	case "bindleader":
 		if m, ok := st.N.(float64); ok {
